@@ -181,6 +181,8 @@ def evaluate(G, S, got, ref):
         return ('iso-sym-unsound', 'only genuine induced isomorphisms', sorted(map(sorted, bad))[:2])
     classes = {}
     for m in ref_set:
+        if m in classes:
+            continue                      # already placed by the orbit of an earlier member
         d = {s: g for g, s in m}
         orbit = frozenset(frozenset((d[a[s]], s) for s in d) for a in auts)
         for member in orbit:
@@ -316,6 +318,11 @@ def gen_pair(rng, tier):
                     del G['edges'][(u, v)]
                 else:
                     G['edges'][(u, v)] = 0
+    # keep the brute-force oracle tractable: dense, colourless pairs have factorially many isomorphisms
+    def density(g):
+        return len(g['edges']) / max(1, g['n'] * (g['n'] - 1) / 2)
+    if S['n'] >= 6 and (density(S) > 0.8 or density(S) < 0.12) and (density(G) > 0.8 or density(G) < 0.12):
+        S = {'n': 5, 'edges': {e: c for e, c in S['edges'].items() if e[0] < 5 and e[1] < 5}}
     ncol = rng.choice([1, 1, 1, 2, 3])
     ecol = rng.choice([1, 1, 1, 2])
     for g in (G, S):
